@@ -25,29 +25,58 @@ LAT_VALS = [F(-1), F(-1, 2), F(0), F(1, 2), F(1), F(2)]
 AFFS = [(F(2), F(1)), (F(-1), F(3)), (F(1, 2), F(-1))]
 
 
-def config(jfa, m, s, U, V, D, N, Fs, enroll=False):
-    return {"jfa": bool(jfa), "enroll": bool(enroll), "m": list(m), "s": list(s), "U": list(U), "V": list(V), "D": list(D),
+def config(jfa, m, s, U, V, D, N, Fs, enroll="no"):
+    return {"jfa": bool(jfa), "enroll": enroll, "m": list(m), "s": list(s), "U": list(U), "V": list(V), "D": list(D),
             "N": [list(r) for r in N], "F": [list(r) for r in Fs]}
 
 
-def all_configs(C, H, jfa, vals=None):
-    """Every configuration of the given shape over the value sets (used for C = H = 1)."""
-    v = dict(m=M_VALS, s=S_VALS, U=U_VALS, V=V_VALS, D=D_VALS, N=N_VALS, F=F_VALS)
-    v.update(vals or {})
-    vs = itertools.product(v["V"], repeat=C) if jfa else [tuple([F(0)] * C)]
-    for V in vs:
-        for m, s, U, D in itertools.product(*[list(itertools.product(v[k], repeat=C)) for k in ("m", "s", "U", "D")]):
-            for N in itertools.product(itertools.product(v["N"], repeat=C), repeat=H):
-                for Fs in itertools.product(itertools.product(v["F"], repeat=C), repeat=H):
-                    yield config(jfa, m, s, U, V, D, N, Fs)
+def _axes(C, H, jfa):
+    """The coordinate axes of the configuration space of one shape (mixed radix, fixed order)."""
+    ax = [("m", c) for c in range(C)] + [("s", c) for c in range(C)] + [("U", c) for c in range(C)]
+    if jfa:
+        ax += [("V", c) for c in range(C)]
+    ax += [("D", c) for c in range(C)]
+    ax += [("N", (h, c)) for h in range(H) for c in range(C)] + [("F", (h, c)) for h in range(H) for c in range(C)]
+    return ax
 
 
-def random_config(rng, C, H, jfa, vals=None):
-    v = dict(m=M_VALS, s=S_VALS, U=U_VALS, V=V_VALS, D=D_VALS, N=N_VALS, F=F_VALS)
-    v.update(vals or {})
-    pick = lambda k, n: [rng.choice(v[k]) for _ in range(n)]
-    return config(jfa, pick("m", C), pick("s", C), pick("U", C), pick("V", C) if jfa else [F(0)] * C, pick("D", C),
-                  [pick("N", C) for _ in range(H)], [pick("F", C) for _ in range(H)])
+VALS = dict(m=M_VALS, s=S_VALS, U=U_VALS, V=V_VALS, D=D_VALS, N=N_VALS, F=F_VALS)
+
+
+def space_size(C, H, jfa):
+    n = 1
+    for k, _ in _axes(C, H, jfa):
+        n *= len(VALS[k])
+    return n
+
+
+def config_at(C, H, jfa, index, enroll="no"):
+    """The index-th configuration of the shape (mixed-radix decoding of the index)."""
+    k = {"m": [None] * C, "s": [None] * C, "U": [None] * C, "V": [F(0)] * C, "D": [None] * C,
+         "N": [[None] * C for _ in range(H)], "F": [[None] * C for _ in range(H)]}
+    for name, pos in _axes(C, H, jfa):
+        vals = VALS[name]
+        index, d = divmod(index, len(vals))
+        if name in ("N", "F"):
+            k[name][pos[0]][pos[1]] = vals[d]
+        else:
+            k[name][pos] = vals[d]
+    return config(jfa, k["m"], k["s"], k["U"], k["V"], k["D"], k["N"], k["F"], enroll=enroll)
+
+
+def fixed_configs(C, H, jfa, n, enroll="no", salt=0):
+    """A seed-independent list: the whole space of the shape when it has at most n elements, otherwise n
+    configurations at a constant stride (a prime that divides no axis length, so all indices differ).
+    Used where the checked formula stays within 32 bits only on part of the domain: these lists were
+    run through TLC when the check was built and never change."""
+    total = space_size(C, H, jfa)
+    if total <= n:
+        return [config_at(C, H, jfa, i, enroll) for i in range(total)]
+    return [config_at(C, H, jfa, (salt + 7919 + i * 1000003) % total, enroll) for i in range(n)]
+
+
+def random_config(rng, C, H, jfa, enroll="no"):
+    return config_at(C, H, jfa, rng.randrange(space_size(C, H, jfa)), enroll)
 
 
 def model_run(ck, name, cfgs, lat=LAT_VALS, affs=AFFS, dev=(), invariants=INVARIANTS, properties=(), export=False,
@@ -234,10 +263,10 @@ class Problem:
 
 
 def selfcheck_evaluators(rng):
-    """The evaluators against brute force on a 1-D instance: J's mode by the linear solve must beat a
-    grid of perturbations, the gradient b - P theta must match finite differences of J, and
-    exp(J) integrated over x by quadrature must be maximal ... (kept to identities that need no
-    library code)."""
+    """The evaluators against brute force on a 1-D instance (no library code involved): the mode from the
+    linear solve must beat 200 random perturbations of every scale, the gradient b - P theta must match
+    central finite differences of J, and J must equal its definition written out with explicit loops.
+    Returns None or a description of the failure."""
     p = Problem(m=[0.3], s=[0.7], U=[[0.9]], V=[[-0.6]], D=[0.8], N=[[1.5], [0.5]], Fs=[[[1.1]], [[-0.4]]])
     (y, x, z), P, b = p.mode()
     j0 = p.J(y, x, z)
